@@ -1,6 +1,7 @@
 package main
 
 import (
+	"sort"
 	"fmt"
 	"go/token"
 	"go/types"
@@ -172,6 +173,39 @@ func (eng *Engine) scanConstGlobals() {
 		}
 		if !escaped[g] {
 			eng.constGlobals[g] = c
+		}
+	}
+}
+
+// assignGlobalIDs gives every package-level variable that a function of the repository mentions a fixed object id,
+// in name order. (Ids used to be handed out on first use; with several functions verified in parallel the order
+// - and with it the text of the verification conditions - depended on scheduling.)
+func (eng *Engine) assignGlobalIDs() {
+	seen := map[*ssa.Global]bool{}
+	var gs []*ssa.Global
+	for fn := range ssautil.AllFunctions(eng.prog) {
+		pp := fnPkgPath(fn)
+		if !isRepoPkg(pp) && !(fn.Parent() != nil && isRepoPkg(fnPkgPath(fn.Parent()))) {
+			continue
+		}
+		for _, b := range fn.Blocks {
+			for _, ins := range b.Instrs {
+				for _, op := range ins.Operands(nil) {
+					if op == nil || *op == nil {
+						continue
+					}
+					if g, ok := (*op).(*ssa.Global); ok && !seen[g] {
+						seen[g] = true
+						gs = append(gs, g)
+					}
+				}
+			}
+		}
+	}
+	sort.Slice(gs, func(i, j int) bool { return gs[i].String() < gs[j].String() })
+	for _, g := range gs {
+		if _, ok := eng.globalIDs[g]; !ok {
+			eng.globalIDs[g] = int64(len(eng.globalIDs) + 1)
 		}
 	}
 }
